@@ -428,3 +428,46 @@ pub fn c16_builders() -> i32 {
     }
     report(found, tried)
 }
+
+// ---------------------------------------------------------------------------------------------
+// C16 / U-SUBST: sequences of insert / insert_if_not_exists (valid and rejected) observed through iter()
+pub fn c16_subst() -> i32 {
+    use scale_typegen::typegen::settings::substitutes::absolute_path;
+    use scale_typegen::TypeSubstitutes;
+    use std::collections::BTreeMap;
+    let mut tried = 0;
+    let mut found = None;
+    // operations: (kind 0 insert / 1 insert_if_not_exists, source, target); source `a::Foo<(A, B)>` is rejected (a generic argument that is not a plain identifier)
+    let srcs = ["a::Foo", "a::Foo<A>", "b::Bar", "a::Foo<(A, B)>"];
+    let tgts = ["::x::T1", "::x::T2<A>", "::y::T3"];
+    let mut ops = vec![];
+    for k in 0..2 { for (si, s) in srcs.iter().enumerate() { for (ti, t) in tgts.iter().enumerate() { ops.push((k, si, s.to_string(), ti, t.to_string())); } } }
+    let n = ops.len();
+    'o: for a in 0..n { for b in 0..n { for c in [0usize, 7, 13, 20] {
+        let seq = [&ops[a], &ops[b], &ops[c % n]];
+        let mut subs = TypeSubstitutes::new();
+        let mut model: BTreeMap<Vec<String>, String> = BTreeMap::new();
+        tried += 1;
+        for (k, si, s, _ti, t) in seq.iter().map(|o| (o.0, o.1, &o.2, o.3, &o.4)) {
+            let src: syn::Path = syn::parse_str::<syn::TypePath>(s).unwrap().path;
+            let tgt = absolute_path(syn::parse_str::<syn::TypePath>(t).unwrap().path).unwrap();
+            let key: Vec<String> = src.segments.iter().map(|x| x.ident.to_string()).collect();
+            let tgt_str = { let p: syn::Path = syn::parse_str::<syn::TypePath>(t).unwrap().path; quote::quote!(#p).to_string() };
+            let before: BTreeMap<Vec<String>, String> = subs.iter().map(|(k, v)| (k.clone(), { let p = v.path(); quote::quote!(#p).to_string() })).collect();
+            let r = if k == 0 { subs.insert(src, tgt) } else { subs.insert_if_not_exists(src, tgt) };
+            let rejected = si == 3;
+            match r {
+                Ok(()) if rejected => { found = Some((format!("{seq:?}"), "a malformed source (non-identifier generic argument) was accepted".into())); break 'o; }
+                Err(_) if !rejected => { found = Some((format!("{seq:?}"), "a valid substitution was rejected".into())); break 'o; }
+                Ok(()) => { if k == 0 || !model.contains_key(&key) { model.insert(key, tgt_str); } }
+                Err(_) => {
+                    let after: BTreeMap<Vec<String>, String> = subs.iter().map(|(k, v)| (k.clone(), { let p = v.path(); quote::quote!(#p).to_string() })).collect();
+                    if after != before { found = Some((format!("{seq:?}"), "a rejected insertion changed the rules".into())); break 'o; }
+                }
+            }
+        }
+        let got: BTreeMap<Vec<String>, String> = subs.iter().map(|(k, v)| (k.clone(), { let p = v.path(); quote::quote!(#p).to_string() })).collect();
+        if got != model { found = Some((format!("{seq:?}"), format!("rules {got:?} differ from last-insert-wins / insert-if-absent model {model:?}"))); break 'o; }
+    } } }
+    report(found, tried)
+}
